@@ -1,4 +1,233 @@
 import EaselModel.Core.Proto
-/-! Line-protocol driver for the C20 model (stub: answers bad-op until the model lands). -/
-open EaselModel.Proto
-def main : IO Unit := runDriver () (fun s _ => (s, "bad-op"))
+import EaselModel.Simd.Intrinsics
+import EaselModel.Simd.Bytes
+import EaselModel.Simd.Lane32
+import EaselModel.Generated.SimdHelpers
+import EaselModel.Generated.SimdLogExp
+import EaselModel.Vec.Model
+/-! Line-protocol driver for the C20 model: SIMD helpers (generated), raw intrinsics (semantics table),
+    esl_sse_logf/expf (generated lane functions on the hardware float instance), vector routines (hand model). -/
+open EaselModel EaselModel.Proto EaselModel.Simd EaselModel.Vec
+
+/-! ## byte codecs -/
+def leNat (bs : List UInt8) : Nat := bs.foldr (fun b acc => b.toNat + 256 * acc) 0
+def natLE (k : Nat) (x : Nat) : List UInt8 := (List.range k).map fun i => UInt8.ofNat (x / 256 ^ i % 256)
+
+def chunks (k : Nat) (bs : List UInt8) : List (List UInt8) :=
+  let a := bs.toArray
+  (List.range (a.size / k)).map fun i => (a.extract (i * k) (i * k + k)).toList
+
+def vecW (w n : Nat) (bs : List UInt8) : Vector (BitVec w) n :=
+  let a := bs.toArray
+  Vector.ofFn fun i => BitVec.ofNat w (leNat (a.extract (i.val * (w / 8)) (i.val * (w / 8) + w / 8)).toList)
+def bytesW {w n : Nat} (v : Vector (BitVec w) n) : List UInt8 := v.toList.flatMap fun x => natLE (w / 8) x.toNat
+
+def doubles (bs : List UInt8) : List Float := (chunks 8 bs).map fun c => Float.ofBits (UInt64.ofNat (leNat c))
+def floats (bs : List UInt8) : List Float32 := (chunks 4 bs).map fun c => Float32.ofBits (UInt32.ofNat (leNat c))
+def ints (k : Nat) (bs : List UInt8) : List Int := (chunks k bs).map fun c =>
+  let u := leNat c; if u < 2 ^ (8 * k - 1) then (u : Int) else (u : Int) - (2 ^ (8 * k) : Nat)
+def dbytes (v : List Float) : List UInt8 := v.flatMap fun x => natLE 8 x.toBits.toNat
+def fbytes (v : List Float32) : List UInt8 := v.flatMap fun x => natLE 4 x.toBits.toNat
+def ibytes (k : Nat) (v : List Int) : List UInt8 := v.flatMap fun x => natLE k (x % ((2 ^ (8 * k) : Nat) : Int)).toNat
+
+def hexPad (digits : Nat) (x : Nat) : String :=
+  let s := Nat.toDigits 16 x
+  String.ofList (List.replicate (digits - s.length) '0' ++ s)
+def dbits (x : Float) : String := hexPad 16 x.toBits.toNat
+def fbits (x : Float32) : String := hexPad 8 x.toBits.toNat
+
+def hexNat? (s : String) : Option Nat :=
+  s.toList.foldl (fun acc c => acc.bind fun a => (hexVal c).map fun d => a * 16 + d) (some 0)
+
+def canonBytesF (bs : List UInt8) : List UInt8 :=
+  (chunks 4 bs).flatMap fun c => natLE 4 (canonNaN (UInt32.ofNat (leNat c))).toNat
+
+/-! ## helpers -/
+def opSimd (ws : List String) : String :=
+  match arg? ws "f" with
+  | none => "bad-op"
+  | some f =>
+    let args := ["a", "b", "m"].filterMap fun k => argHex? ws k
+    match Gen.dispatch f args with
+    | none => "bad-op"
+    | some out =>
+      let out := if (f.splitOn "hsum").length > 1 then canonBytesF out else out
+      "ok " ++ hexOrDash out
+
+/-! ## raw intrinsics against the table -/
+def opIntr (ws : List String) : String :=
+  let f := (arg? ws "f").getD ""
+  let w := (argNat? ws "w").getD 8
+  let imm := (argNat? ws "imm").getD 0
+  let k := (argNat? ws "k").getD 0
+  let ab := (argHex? ws "a").getD []
+  let bb := (argHex? ws "b").getD []
+  let mb := (argHex? ws "m").getD []
+  let nbytes := if f.startsWith "_mm512_" then 64 else if f.startsWith "_mm256_" then 32 else 16
+  let n := nbytes * 8 / w
+  let L := 128 / w
+  let B := w / 8
+  let a : Vector (BitVec w) n := vecW w n ab
+  let b : Vector (BitVec w) n := vecW w n bb
+  let okv (v : Vector (BitVec w) n) : String := "ok " ++ hexOrDash (bytesW v)
+  let okn (x : Nat) : String := "ok " ++ hexOrDash (natLE 4 x)
+  let af : Vector UInt32 (nbytes / 4) := vecF (nbytes / 4) ab
+  let bf : Vector UInt32 (nbytes / 4) := vecF (nbytes / 4) bb
+  let mf : Vector UInt32 (nbytes / 4) := vecF (nbytes / 4) mb
+  let okf (v : Vector UInt32 (nbytes / 4)) : String := "ok " ++ hexOrDash (bytesF v)
+  match f with
+  | "_mm_srli_si128" | "_mm256_srli_si256" => if imm % B == 0 then okv (bsrli L B 0 a imm) else "bad-op"
+  | "_mm_slli_si128" => if imm % B == 0 then okv (bslli L B 0 a imm) else "bad-op"
+  | "_mm_shuffle_epi32" | "_mm256_shuffle_epi32" => okv (shuffle32 L 0 a imm)
+  | "_mm_shufflelo_epi16" | "_mm256_shufflelo_epi16" => if w ≤ 16 then okv (shufflelo16 L 0 a imm) else "bad-op"
+  | "_mm_shuffle_ps" | "_mm512_shuffle_ps" => okv (shuffle_ps L 0 a b imm)
+  | "_mm_srli_epi16" => if w < 16 && imm % w == 0 && imm < 16 then okv (srl_group (16 / w) 0 a (imm / w)) else "bad-op"
+  | "_mm_srli_epi32" => if w < 32 && imm % w == 0 && imm < 32 then okv (srl_group (32 / w) 0 a (imm / w)) else "bad-op"
+  | "_mm256_permute2x128_si256" => okv (permute2x128 L 0 a b imm)
+  | "_mm_alignr_epi8" | "_mm256_alignr_epi8" | "_mm512_alignr_epi8" => if imm % B == 0 then okv (alignr L B 0 a b imm) else "bad-op"
+  | "_mm512_shuffle_f32x4" => okv (shuffle_x4 L 0 a b imm)
+  | "_mm512_maskz_shuffle_i32x4" => okv (maskz_shuffle_x4 L 0 k a b imm)
+  | "_mm512_extracti32x8_epi32" | "_mm512_extractf32x8_ps" =>
+      "ok " ++ hexOrDash (bytesW (extract_half (m := n / 2) 0 a imm))
+  | "_mm_move_ss" => okv (move_ss (32 / w) 0 a b)
+  | "_mm_max_epu8" | "_mm256_max_epu8" => if w == 8 then okv (max_epu a b) else "bad-op"
+  | "_mm_max_epi8" | "_mm256_max_epi8" => if w == 8 then okv (max_epi a b) else "bad-op"
+  | "_mm_max_epi16" | "_mm256_max_epi16" => if w == 16 then okv (max_epi a b) else "bad-op"
+  | "_mm_or_si128" | "_mm256_or_si256" | "_mm512_or_si512" => okv (or_si a b)
+  | "_mm_xor_si128" => okv (xor_si a b)
+  | "_mm_and_si128" => okv (and_si a b)
+  | "_mm_cmpeq_epi8" => if w == 8 then okv (cmpeq_epi a b) else "bad-op"
+  | "_mm_cmpgt_epi16" | "_mm256_cmpgt_epi16" => if w == 16 then okv (cmpgt_epi a b) else "bad-op"
+  | "_mm_movemask_epi8" | "_mm256_movemask_epi8" => okn (movemask_epi8 B a)
+  | "_mm_movemask_ps" => okn (movemask_ps F32.ops af)
+  | "_mm_max_ps" => okf (max_ps F32.ops af bf)
+  | "_mm_min_ps" => okf (min_ps F32.ops af bf)
+  | "_mm_cmpgt_ps" => okf (cmpgt_ps F32.ops af bf)
+  | "_mm_blendv_ps" => okf (blendv_ps F32.ops af bf mf)
+  | "_mm_add_ps" | "_mm256_add_ps" | "_mm512_add_ps" => "ok " ++ hexOrDash (canonBytesF (bytesF (add_ps F32.ops af bf)))
+  | _ => "bad-op"
+
+/-! ## logf / expf -/
+def opLogExp (isLog : Bool) (ws : List String) : String :=
+  let xs := (chunks 4 ((argHex? ws "x").getD [])).map fun c => UInt32.ofNat (leNat c)
+  let f := if isLog then Gen.esl_sse_logf_lane Lane32Ops.hw else Gen.esl_sse_expf_lane Lane32Ops.hw
+  let lib (u : UInt32) : UInt32 := if isLog then (Float32.log (Float32.ofBits u)).toBits else (Float32.exp (Float32.ofBits u)).toBits
+  let res := xs.flatMap fun u => natLE 4 (canonNaN (f u)).toNat
+  let ref := xs.flatMap fun u => natLE 4 (canonNaN (lib u)).toNat
+  "ok " ++ hexOrDash res ++ " ref=" ++ hexOrDash ref
+
+/-! ## vector routines -/
+def stat (b : Bool) : String := if b then "ok ok" else "ok fail"
+
+def opVecD (op : String) (x y : List Float) (s : Float) (m : Nat) : String :=
+  let sc (o : Option Float) : String := match o with | some r => "ok " ++ dbits r | none => "fault"
+  let vc (o : Option (List Float)) : String := match o with | some r => "ok " ++ hexOrDash (dbytes r) | none => "fault"
+  match op with
+  | "Sum" => sc (some (sum x))
+  | "Dot" => sc (some (dot x y))
+  | "Max" => sc (vmax x)
+  | "MatMax" => if m = 0 then "bad-op" else sc (vmax x)
+  | "Min" => sc (vmin x)
+  | "ArgMax" => s!"ok {argmax x}"
+  | "ArgMin" => s!"ok {argmin x}"
+  | "SortIncreasing" => vc (some (sortIncreasing x))
+  | "SortDecreasing" => vc (some (sortDecreasing x))
+  | "Reverse" | "ReverseInPlace" => vc (some (reverse x))
+  | "Scale" => vc (some (scale x s))
+  | "Increment" => vc (some (increment x s))
+  | "Add" => vc (some (add x y))
+  | "AddScaled" => vc (some (addScaled x y s))
+  | "Norm" => vc (some (norm x))
+  | "LogNorm" => vc (logNorm x)
+  | "Log2Norm" => vc (log2Norm x)
+  | "Log" => vc (some (vlog x))
+  | "Exp" => vc (some (vexp x))
+  | "LogSum" => sc (logSum x)
+  | "Log2Sum" => sc (log2Sum x)
+  | "Entropy" => sc (some (entropy x))
+  | "RelEntropy" => sc (some ((relEntropyGo x y (VNum.ofNat 0)).getD VInf.inf))
+  | "CDF" | "CDFInPlace" => vc (cdf x)
+  | "Validate" => stat (validate x s)
+  | "LogValidate" => stat (logValidate x s)
+  | _ => "bad-op"
+
+def opVecF (op : String) (x y : List Float32) (s : Float32) (m : Nat) : String :=
+  let sc (o : Option Float32) : String := match o with | some r => "ok " ++ fbits r | none => "fault"
+  let vc (o : Option (List Float32)) : String := match o with | some r => "ok " ++ hexOrDash (fbytes r) | none => "fault"
+  match op with
+  | "Sum" => sc (some (sum x))
+  | "Dot" => sc (some (dot x y))
+  | "Max" => sc (vmax x)
+  | "MatMax" => if m = 0 then "bad-op" else sc (vmax x)
+  | "Min" => sc (vmin x)
+  | "ArgMax" => s!"ok {argmax x}"
+  | "ArgMin" => s!"ok {argmin x}"
+  | "SortIncreasing" => vc (some (sortIncreasing x))
+  | "SortDecreasing" => vc (some (sortDecreasing x))
+  | "Reverse" => vc (some (reverse x))
+  | "Scale" => vc (some (scale x s))
+  | "Increment" => vc (some (increment x s))
+  | "Add" => vc (some (add x y))
+  | "AddScaled" => vc (some (addScaled x y s))
+  | "Norm" => vc (some (norm x))
+  | "LogNorm" => vc (logNorm x)
+  | "Log2Norm" => vc (log2Norm x)
+  | "Log" => vc (some (vlog x))
+  | "Exp" => vc (some (vexp x))
+  | "LogSum" => sc (logSum x)
+  | "Log2Sum" => sc (log2Sum x)
+  | "Entropy" => sc (some (entropy x))
+  | "RelEntropy" => sc (some ((relEntropyGo x y (VNum.ofNat 0)).getD VInf.inf))
+  | "CDF" => vc (cdf x)
+  | "Validate" => stat (validate x s)
+  | "LogValidate" => stat (logValidate x s)
+  | _ => "bad-op"
+
+def opVecI (k : Nat) (op : String) (x y : List Int) (m : Nat) : String :=
+  let sc (o : Option Int) : String := match o with | some r => s!"ok {r}" | none => "fault"
+  match op with
+  | "Sum" => sc (some (isum x))
+  | "Dot" => sc (some (idot x y))
+  | "Max" => sc (vmax x)
+  | "MatMax" => if m = 0 then "bad-op" else sc (vmax x)
+  | "Min" => sc (vmin x)
+  | "ArgMax" => s!"ok {argmax x}"
+  | "ArgMin" => s!"ok {argmin x}"
+  | "SortIncreasing" => "ok " ++ hexOrDash (ibytes k (sortIncreasing x))
+  | "SortDecreasing" => "ok " ++ hexOrDash (ibytes k (sortDecreasing x))
+  | "Reverse" => "ok " ++ hexOrDash (ibytes k (reverse x))
+  | _ => "bad-op"
+
+def opVec (ws : List String) : String :=
+  match arg? ws "op" with
+  | none => "bad-op"
+  | some full =>
+    let T := full.toList.headD ' '
+    let op := (full.drop 1).toString
+    let xb := (argHex? ws "x").getD []
+    let yb := (argHex? ws "y").getD []
+    let sbits := ((arg? ws "s").bind hexNat?).getD 0
+    let m := (argNat? ws "m").getD 1
+    let hasY := (arg? ws "y").isSome
+    match T with
+    | 'D' => if hasY && yb.length / 8 != xb.length / 8 then "bad-op" else
+             opVecD op (doubles xb) (doubles yb) (Float.ofBits (UInt64.ofNat sbits)) m
+    | 'F' => if hasY && yb.length / 4 != xb.length / 4 then "bad-op" else
+             opVecF op (floats xb) (floats yb) (Float32.ofBits (UInt32.ofNat sbits)) m
+    | 'I' => if hasY && yb.length / 4 != xb.length / 4 then "bad-op" else opVecI 4 op (ints 4 xb) (ints 4 yb) m
+    | 'L' => if hasY && yb.length / 8 != xb.length / 8 then "bad-op" else
+             if op == "MatMax" || op == "Reverse" then "bad-op" else opVecI 8 op (ints 8 xb) (ints 8 yb) m
+    | _ => "bad-op"
+
+def step (s : Unit) (line : String) : Unit × String :=
+  let ws := words line
+  match ws with
+  | "cpu" :: _ => (s, "ok sse=1 avx=1 avx512=1")
+  | "simd" :: _ => (s, opSimd ws)
+  | "intr" :: _ => (s, opIntr ws)
+  | "logf" :: _ => (s, opLogExp true ws)
+  | "expf" :: _ => (s, opLogExp false ws)
+  | "vec" :: _ => (s, opVec ws)
+  | _ => (s, "bad-op")
+
+def main : IO Unit := runDriver () step
